@@ -301,6 +301,14 @@ def run(ctx):
             pc = m.functions['pickle_copy']
     if pc is None:
         raise AnalysisError('anchor-lost function=pickle_copy')
+    shared_codec = [n for n in ast.walk(pc.node) if isinstance(n, ast.Name) and isinstance(n.ctx, ast.Load) and n.id in pc.module.globals and
+                    isinstance(pc.module.globals[n.id], ast.Call)]
+    cg.instance('pickle_copy uses no module-level codec object (a fresh pickler / unpickler per copy)', pc.qualname, not shared_codec)
+    for n in shared_codec[:1]:
+        res.add(Finding('C01', 'C01.g', 'R-AGREE', pc.file, pc.qualname, n.lineno, norm(n),
+                        'pickle_copy goes through the module-level object `%s` (%s): two copies that overlap (worker threads of an operation, a copy started '
+                        'from a value\'s __getstate__) share its reference table, so back references resolve to the wrong object and the copy handed to the '
+                        'replayed code is not equal to what was recorded' % (n.id, norm(pc.module.globals[n.id])[:60])))
     ok, why = is_decode_encode(pc)
     cg.instance('pickle_copy returns decode(encode(value)) on every path', pc.qualname, ok, detail=why)
     if not ok:
@@ -317,6 +325,9 @@ def run(ctx):
     rm.extractor_runs_idle_clause(ctx, res, 'C01', 'C01.p')
     # ---- C01.q the recorded outputs handed back by play() are exactly the writer's output entries (shared with C03.d)
     _cmn.import_clauses(ctx, res, 'C03', ['C03.d'], 'C01', 'C01.q', 'R-AGREE', 'the extractor selects exactly the output entries that were written', floor=6)
+    from . import common as _r7
+    _r7.import_clauses(ctx, res, 'C20', ['C20.d'], 'C01', 'C01.r', 'R-PROV', 'file inputs: the replayed code finds the recorded bytes at the path it named', floor=1)
+    _r7.import_clauses(ctx, res, 'C03', ['C03.b'], 'C01', 'C01.s', 'R-PROV', 'the output entry captured in replay is formed like the recorded one (the comparison sees equal values for equal calls)', floor=1)
     return res
 
 
